@@ -35,25 +35,25 @@ func kindOf(v2 bool, level int) lib.Kind {
 }
 
 // checkAccept compares one decoder's verdict with the reference recogniser.
-func checkAccept(w *W, prop string, v2 bool, level int, s string, nilRecv bool) (accepted bool) {
+func checkAccept(w *W, prop string, v2 bool, level int, s string, mode int) (accepted bool) {
 	k := kindOf(v2, level)
-	o, err, pan := lib.Decode(k, s, nilRecv)
+	o, _, err, pan := lib.DecodeMode(k, s, mode)
 	w.Eval(1)
 	if pan != nil {
-		w.Violate(Violation{Monitor: prop, Check: "Decode does not panic", Case: decodeCase(k, s, nilRecv), Observed: pan.Value, Note: clip(pan.Stack, 1500)})
+		w.Violate(Violation{Monitor: prop, Check: "Decode does not panic", Case: decodeCaseMode(k, s, mode), Observed: pan.Value, Note: clip(pan.Stack, 1500)})
 		return false
 	}
 	ref, defects := refParse(v2, s, level)
 	got := err == nil
 	if got != ref {
-		w.Violate(Violation{Monitor: prop, Check: "decoder accepts exactly the strings of its language", Case: decodeCase(k, s, nilRecv),
+		w.Violate(Violation{Monitor: prop, Check: "decoder accepts exactly the strings of its language", Case: decodeCaseMode(k, s, mode),
 			Observed: fmt.Sprintf("accepted=%v err=%s", got, lib.ErrClass(err)), Expected: fmt.Sprintf("accepted=%v defects=%v", ref, defects.Names())})
 	}
 	if got && o.IsNil() {
-		w.Violate(Violation{Monitor: prop, Check: "an accepted vector yields a metrics object", Case: decodeCase(k, s, nilRecv), Observed: "nil object, nil error"})
+		w.Violate(Violation{Monitor: prop, Check: "an accepted vector yields a metrics object", Case: decodeCaseMode(k, s, mode), Observed: "nil object, nil error"})
 	}
 	if !got && !o.IsNil() {
-		w.Violate(Violation{Monitor: prop, Check: "a rejected string yields no metrics object", Case: decodeCase(k, s, nilRecv), Observed: "object and error " + lib.ErrClass(err)})
+		w.Violate(Violation{Monitor: prop, Check: "a rejected string yields no metrics object", Case: decodeCaseMode(k, s, mode), Observed: "object and error " + lib.ErrClass(err)})
 	}
 	return got
 }
@@ -73,8 +73,8 @@ func runAccept(r *Run, v2 bool) int {
 		w.Count("strings_from_" + m.Src)
 		h := Hash(s)
 		for level := 0; level < 3; level++ {
-			nilRecv := (h>>uint(level))&1 == 1
-			if checkAccept(w, prop, v2, level, s, nilRecv) {
+			mode := int((h >> uint(8*level)) % 3) // fresh constructor result / nil receiver / constructor result queried before Decode
+			if checkAccept(w, prop, v2, level, s, mode) {
 				acc[level].Add(1)
 				w.Count("accepted_from_" + m.Src)
 			} else {
@@ -99,7 +99,7 @@ func runAccept(r *Run, v2 bool) int {
 	if v2 {
 		ver = "v2"
 	}
-	return r.Finish(ver+" string workload, every string offered to all three decoders (fresh decoder and nil receiver alternating): valid vectors (all base combinations x seeded optional subsets x permutations; also offered to lower decoders), every single-character edit at every position of seed vectors over a 38-symbol alphabet, the token-level edit catalogue (drop/duplicate/move/swap/cross-metric values and names/malformed tokens/prefix catalogue/separators), single-classified-defect inputs, seeded double edits, all sequences of <= 2 (quick) / 3 (thorough) pool tokens appended to or inserted into a fixed vector, random byte / grammar-alphabet / token strings, multi-megabyte inputs; oracle = reference recogniser written from the property text; distinct non-trivial = distinct strings other than random bytes (30-bit hash bitmap, conservative)",
+	return r.Finish(ver+" string workload, every string offered to all three decoders (receiver alternating between a fresh constructor result, a nil receiver and a constructor result whose query methods were called before Decode): valid vectors (all base combinations x seeded optional subsets x permutations; also offered to lower decoders), every single-character edit at every position of seed vectors over a 38-symbol alphabet, the token-level edit catalogue (drop/duplicate/move/swap/cross-metric values and names/malformed tokens/prefix catalogue/separators), single-classified-defect inputs, seeded double edits, all sequences of <= 2 (quick) / 3 (thorough) pool tokens appended to or inserted into a fixed vector, random byte / grammar-alphabet / token strings, multi-megabyte inputs; oracle = reference recogniser written from the property text; distinct non-trivial = distinct strings other than random bytes (30-bit hash bitmap, conservative)",
 		false, distinct.count(), 1000000, 200000, TrustedBase)
 }
 
@@ -108,7 +108,7 @@ func replayAccept(r *Run, c Case) {
 	defer w.Merge()
 	k := kindByName(c.Kind)
 	s := c.GetInput()
-	got := checkAccept(w, r.ID, k.V2(), k.Level(), s, c.NilRcv)
+	got := checkAccept(w, r.ID, k.V2(), k.Level(), s, caseMode(c))
 	ref, d := refParse(k.V2(), s, k.Level())
 	fmt.Printf("replay %s %q: library accepted=%v reference accepted=%v defects=%v\n", c.Kind, clip(s, 300), got, ref, d.Names())
 }
@@ -136,9 +136,9 @@ func (st *c11state) add(key string) {
 }
 
 // checkReject checks the error of one rejected decode.
-func checkReject(w *W, st *c11state, v2 bool, level int, s string, m *strMeta, nilRecv bool) {
+func checkReject(w *W, st *c11state, v2 bool, level int, s string, m *strMeta, mode int) {
 	k := kindOf(v2, level)
-	o, err, pan := lib.Decode(k, s, nilRecv)
+	o, _, err, pan := lib.DecodeMode(k, s, mode)
 	_ = o
 	w.Eval(1)
 	if pan != nil {
@@ -155,7 +155,7 @@ func checkReject(w *W, st *c11state, v2 bool, level int, s string, m *strMeta, n
 	}
 	w.Count("rejected")
 	matches := lib.Matches(err)
-	c := decodeCase(k, s, nilRecv)
+	c := decodeCaseMode(k, s, mode)
 	if len(matches) != 1 {
 		w.Violate(Violation{Monitor: "C11", Check: "a rejection matches exactly one exported sentinel under errors.Is", Case: c, Observed: fmt.Sprintf("%v (%s)", matches, lib.ErrText(err))})
 		return
@@ -202,7 +202,7 @@ func runC11(r *Run) int {
 			h := Hash(s)
 			distinct.add(s)
 			for level := 0; level < 3; level++ {
-				checkReject(w, st, v2, level, s, m, (h>>uint(level))&1 == 1)
+				checkReject(w, st, v2, level, s, m, int((h>>uint(8*level))%3))
 			}
 			if h%300007 == 0 {
 				_, d := refParse(v2, s, 1)
@@ -260,8 +260,8 @@ func replayC11(r *Run, c Case) {
 			}
 		}
 	}
-	checkReject(w, st, k.V2(), k.Level(), s, m, c.NilRcv)
-	_, err, _ := lib.Decode(k, s, c.NilRcv)
+	checkReject(w, st, k.V2(), k.Level(), s, m, caseMode(c))
+	_, _, err, _ := lib.DecodeMode(k, s, caseMode(c))
 	_, d := refParse(k.V2(), s, k.Level())
 	fmt.Printf("replay %s %q: reported %s; defects present %v\n", c.Kind, clip(s, 300), lib.ErrClass(err), d.Names())
 }
